@@ -61,7 +61,8 @@
 (define-syntax unless
   (syntax-rules ()
     ((unless test result1 result2 ...)
-     (if (not test)
+     (if test
+         (if #f #f)
          (begin result1 result2 ...)))))
 
 (define-syntax let*
@@ -202,12 +203,12 @@
 (define-syntax delay-force
   (syntax-rules ()
     ((delay-force expression)
-     (list (cons #f (lambda () expression))))))
+     `((#f . ,(lambda () expression))))))
 
 (define-syntax delay
    (syntax-rules ()
      ((delay expression)
-      (delay-force (list (cons #t expression))))))
+      (delay-force `((#t . ,expression))))))
 
 (define make-promise
     (lambda (done? proc)
